@@ -1208,3 +1208,150 @@ def set_tuple_stream(run, drv):
                 loc = "nt" if tdm[f][0] in ("nt", "stack") else "leaf"
             model = ["ok", loc, sorted([[k, "none" if x == "none" else "v"] for k, x in state[1][1]])]
         run.corr("set_tuple(_set with a tuple key)", case, impl, model)
+
+
+# --------------------------------------------------------------------------- multi-step histories
+def history_stream(run):
+    """random HISTORIES (3-7 steps) on one instance: field writes of every kind, in-place and tuple-key `set`, `update` from a tensorclass /
+    dict, indexed assignment, lock / unlock, and steps that replace the instance by a derived one (clone, apply, pickle, stack+unbind,
+    to_tensordict → from_tensordict).  After EVERY step: (1) every field reads what the history says it holds, (2) all read paths of the
+    instance agree (`fields_readable`: attribute / to_dict / to_tensordict / items), (3) the well-formedness invariant of the model holds on
+    the real object (every declared field lives in exactly one of `_tensordict` / `_non_tensordict`, nothing else does)."""
+    n = 120 if run.tier == "quick" else 1200
+    names = ["D1", "S1", "Nc", "Sh", "D2", "Ac"]
+    for it in range(n):
+        cname = run.rng.choice(names)
+        cls = Z.BEHAVIOUR_CLASSES[cname]
+        lazy = run.rng.random() < 0.2
+        t = Z.make_lazy(cls) if lazy else Z.make(cls)
+        fields = sorted(cls.__expected_keys__)
+        exp = {f: getattr(t, f) for f in fields if f != "n"}
+        exp["n.y"], exp["n.t"] = t.n.y, t.n.t
+        hist = []
+        locked = False
+
+        def tens(shape, k):
+            return torch.full(shape, float(k))
+
+        def check(step):
+            why = None
+            for f, v in exp.items():
+                try:
+                    got = t.n.y if f == "n.y" else t.n.t if f == "n.t" else getattr(t, f)
+                except Exception as e:  # noqa: BLE001
+                    why = f"reading {f} raises {type(e).__name__}: {str(e)[:60]}"
+                    break
+                if lazy and isinstance(got, list) and not isinstance(v, list):
+                    # a lazily stacked tensordict keeps a non-tensor value per member: it reads as the nested list of that value
+                    # (representation: C16's subject); the content is what is compared
+                    flat = got
+                    while flat and isinstance(flat[0], list):
+                        flat = [y for x in flat for y in x]
+                    if all(x == v for x in flat):
+                        continue
+                if B.canon(got) != B.canon(v):
+                    why = f"field {f} reads {str(B.canon(got))[:80]}, the history says {str(B.canon(v))[:80]}"
+                    break
+            if why is None:
+                bad = B.fields_readable(t)
+                if bad:
+                    why = f"read paths disagree: {bad}"
+            if why is None and not lazy:
+                tdk, ntk = set(t._tensordict.keys()), set(t._non_tensordict.keys())
+                inst = set(k for k in fields if k in t.__dict__)
+                if not tdk <= set(fields) or not ntk <= set(fields):
+                    why = f"undeclared keys: tensordict {sorted(tdk - set(fields))}, placeholders {sorted(ntk - set(fields))}"
+                elif tdk & ntk:
+                    why = f"fields in both dicts: {sorted(tdk & ntk)}"
+                elif set(fields) - tdk - ntk - inst:
+                    why = f"fields in neither dict: {sorted(set(fields) - tdk - ntk - inst)}"
+            return why
+        for step in range(run.rng.randint(3, 7)):
+            k = it * 10 + step + 1
+            op = run.rng.choice(["attr-x", "attr-o", "attr-o-none", "attr-s", "set-inplace-x", "set-tuple-ny", "update-tc", "update-dict", "setitem",
+                                 "lock", "unlock", "clone", "apply", "pickle", "stack-unbind"])
+            hist.append(op)
+            new = dict(exp)
+            writes = op in ("attr-x", "attr-o", "attr-o-none", "attr-s", "set-tuple-ny", "update-tc", "update-dict", "setitem") or (op == "set-inplace-x" and False)
+            try:
+                with time_limit(20), warnings.catch_warnings():
+                    warnings.simplefilter("ignore")
+                    if op == "attr-x":
+                        v = tens((2, 3, 4), k); t.x = v; new["x"] = v
+                    elif op == "attr-o":
+                        v = tens((2, 3), k); t.o = v; new["o"] = v
+                    elif op == "attr-o-none":
+                        t.o = None; new["o"] = None
+                    elif op == "attr-s":
+                        t.s = f"s{k}"; new["s"] = f"s{k}"
+                    elif op == "set-inplace-x":
+                        v = tens((2, 3, 4), k); t.set("x", v, inplace=True); new["x"] = v
+                    elif op == "set-tuple-ny":
+                        v = tens((2, 3), k); t.set(("n", "y"), v); new["n.y"] = v
+                    elif op == "update-tc":
+                        src = Z.make(cls, seed=k % 7)
+                        if run.rng.random() < 0.5:
+                            src.o = tens((2, 3), k)
+                        t.update(src)
+                        new["x"], new["n.y"] = src.x, src.n.y
+                        new["s"], new["d"], new["n.t"] = src.s, src.d, src.n.t      # (update writes every entry of the source)
+                        if src.o is not None:
+                            new["o"] = src.o
+                    elif op == "update-dict":
+                        v = tens((2, 3, 4), k); t.update({"x": v}); new["x"] = v
+                    elif op == "setitem":
+                        src = Z.make(cls, seed=k % 7)
+                        if exp.get("o") is not None:
+                            src.o = tens((2, 3), k)
+                        t[0] = src[0]
+                        new["x"] = exp["x"].clone(); new["x"][0] = src.x[0]
+                        new["n.y"] = exp["n.y"].clone(); new["n.y"][0] = src.n.y[0]
+                        if exp.get("o") is not None:
+                            new["o"] = exp["o"].clone(); new["o"][0] = src.o[0]
+                        # the non-tensor fields of the history may differ from the source's: position 0 takes the source's payload
+                        for f in ("s", "d", "n.t"):
+                            cur = exp[f]
+                            srcv = src.n.t if f == "n.t" else getattr(src, f)
+                            if cur != srcv and not isinstance(cur, list):
+                                new[f] = [[srcv] * 3, [cur] * 3]
+                            elif isinstance(cur, list):
+                                new[f] = [[srcv] * 3] + cur[1:]
+                    elif op == "lock":
+                        t.lock_(); locked = True
+                    elif op == "unlock":
+                        t.unlock_(); locked = False
+                    elif op == "clone":
+                        t = t.clone(); locked = False
+                    elif op == "apply":
+                        t = t.apply(lambda x: x + 1); locked = False
+                        for f in ("x", "o", "n.y"):
+                            if isinstance(exp.get(f), torch.Tensor):
+                                new[f] = exp[f] + 1
+                    elif op == "pickle":
+                        t = pickle.loads(pickle.dumps(t))
+                    elif op == "stack-unbind":
+                        t = torch.stack([t, t.clone()], 0).unbind(0)[1]; locked = False
+                    elif op == "roundtrip":
+                        t = cls.from_tensordict(t.to_tensordict(retain_none=False)); locked = False
+                exp = new
+                if lazy and op in ("clone", "apply", "pickle", "stack-unbind", "roundtrip", "setitem", "update-tc"):
+                    lazy = isinstance(t._tensordict, LazyStackedTensorDict)
+            except TimeoutError:
+                raise
+            except Exception as e:  # noqa: BLE001
+                if locked and writes and isinstance(e, RuntimeError) and "lock" in str(e).lower():
+                    run.count("history.lock_refusals", op)        # a locked instance refuses the write and keeps its content (checked below)
+                elif lazy:
+                    run.count("history.lazy_raises", f"{op}:{type(e).__name__}")     # (lazily stacked receivers: C08's operations, not judged here)
+                    break
+                else:
+                    run.case(("history", cname, tuple(hist)))
+                    run.oracle_fail("history", [cname, list(hist)], f"step {len(hist)} ({op}) raises {type(e).__name__}: {str(e)[:100]}",
+                                    fingerprint=f"history:{op}:raises:{err_class(e)}")
+                    break
+            run.case(("history", cname, tuple(hist)))
+            why = check(step)
+            if why:
+                run.oracle_fail("history", [cname, "lazy" if lazy else "dense", list(hist)], f"after step {len(hist)} ({op}): {why}", fingerprint=f"history:{op}:{why[:40]}")
+                break
+            run.oracle_ok("history")
